@@ -39,6 +39,7 @@ type Node struct {
 	outputReader *os.File
 	scriptFile   *os.File
 	done         bool
+	cmdRunning   bool
 }
 
 type NodeData struct {
@@ -129,7 +130,10 @@ func (n *Node) Execute(ctx context.Context) error {
 	if err != nil {
 		return err
 	}
-	n.SetError(cmd.Run())
+	n.setCmdRunning(true)
+	runErr := cmd.Run()
+	n.setCmdRunning(false)
+	n.SetError(runErr)
 	if n.outputReader != nil && n.data.Step.Output != "" {
 		util.LogErr("close pipe writer", n.outputWriter.Close())
 		var buf bytes.Buffer
@@ -144,6 +148,19 @@ func (n *Node) Execute(ctx context.Context) error {
 	}
 
 	return n.data.State.Error
+}
+
+func (n *Node) setCmdRunning(running bool) {
+	n.mu.Lock()
+	defer n.mu.Unlock()
+	n.cmdRunning = running
+}
+
+// isCmdRunning returns true while the command of the node is being executed.
+func (n *Node) isCmdRunning() bool {
+	n.mu.RLock()
+	defer n.mu.RUnlock()
+	return n.cmdRunning
 }
 
 func (n *Node) finish() {
@@ -245,7 +262,9 @@ func (n *Node) signal(sig os.Signal, allowOverride bool) {
 	n.mu.Lock()
 	defer n.mu.Unlock()
 	status := n.data.State.Status
-	if status == NodeStatusRunning && n.cmd != nil {
+	// The signal has to reach the process as long as it is alive, also after the
+	// node was labelled canceled by an earlier signal (resend, SIGKILL escalation).
+	if n.cmdRunning && n.cmd != nil {
 		sigsig := sig
 		if allowOverride && n.data.Step.SignalOnStop != "" {
 			sigsig = unix.SignalNum(n.data.Step.SignalOnStop)
